@@ -64,9 +64,9 @@ CLAIMS = {
                 note="Decides 'in [-pi,pi] or NaN'; never-NaN and global minimality are NOT decided.",
                 technique="all-returns provenance + field-writer census"),
     "C18": dict(level="other", design="§5 C18",
-                text="Range-guard atoms and error variants of DriftTables::at / DriftTable::at (strictness), z used only through abs() (non-interference), phi - correction operand order, interpolation term shape.",
-                note="Monotonicity/continuity/radius bounds depend on table values: NOT decided.",
-                technique="guard-atom census + def-use non-interference"),
+                text="Guard/value tables of DriftTables::at, DriftTable::at and SpacePoint::try_from (range guards with strictness and error variants, slice and bracket choice, linear interpolation, phi - correction), z used only through abs() (non-interference), and the clauses that depend on the embedded drift table itself (ascending bounds and times, non-increasing radius, < 0.5 mm step per 8 ns, non-negative correction), read from the byte constant the table is deserialised from.",
+                note="Known finding F6: 135 adjacent knots of the embedded table differ by 0.5 mm or more (reported as KNOWN-FINDING lines). Ulp-level interpolation arithmetic is not analysed.",
+                technique="guard/value table comparison + def-use non-interference + static analysis of the embedded data table"),
     "C19": dict(level="other", design="§5 C19",
                 text="sort_run_files dominance and internals (sort key, run-number and duplicate guards, extension match), one-row-per-main-event pipeline shape (filter/map/scan returning Some on all paths), ordered rayon API allow-list, wrapping_sub time arithmetic, sibling agreement of the two binaries.",
                 note="Byte-identical output across thread counts rests on rayon's ordering contract (trusted); lz4/CSV formatting not analysed.",
